@@ -766,7 +766,7 @@ equalWithAbsErrorObj(const Vec4<T> &v, const object &obj1, const object &obj2)
             res.x = extract<T>(t[0]);
             res.y = extract<T>(t[1]);
             res.z = extract<T>(t[2]);
-            res.z = extract<T>(t[3]);
+            res.w = extract<T>(t[3]);
         }
         else
             throw std::invalid_argument ("tuple of length 4 expected");
